@@ -370,6 +370,25 @@ def run(ctx, only=None):
                     ctx.broken.append(broken[-1])
                     ctx.say(broken[-1])
             ctx.gen("DepthGuard.lean", cgg.render(cs, g))
+            # (A1b) counter balance on the IR: net charges per block + level labels -> Gen/DepthBalance.lean (cg_counters_balanced_ir)
+            bals, bskip = cgg.balance_certs(ctx.build, g, cs)
+            ctx.gen("DepthBalance.lean", cgg.render_balance(bals))
+            for nm, why in bskip:
+                broken.append("no IR balance certificate for %s: %s [theorem cg_counters_balanced_ir]" % (nm, why[:200]))
+                ctx.broken.append(broken[-1])
+                ctx.say(broken[-1])
+            for b in bals:
+                bad = [(x, y) for (x, y) in b["cfg"] if (b["live"] >> x) & 1 and not (b["stops"] >> x) & 1 and y not in b["rets"]
+                       and b["level"][y] != b["level"][x] + b["delta"][x]]
+                low = [p for p in b["calls"] if p[1] < 1][{"peg_rule": 2}.get(b["fn"], 0):]      # Props.C19.unchargedAllowed
+                neg = [k for k in range(b["n"]) if (b["live"] >> k) & 1 and b["level"][k] < 0]
+                if bad or low or neg:
+                    broken.append("depth counter %s of %s is not balanced on the IR CFG: %s [theorem cg_counters_balanced_ir]" % (
+                        b["counter"], b["fn"], ("blocks %d -> %d are reached with different numbers of outstanding charges" % bad[0]) if bad else
+                        ("recursive call in block %d is made without a charge" % low[0][0]) if low else "block %d is reached after more releases than charges" % neg[0]))
+                    ctx.broken.append(broken[-1])
+                    ctx.say(broken[-1])
+            cs.balance = bals
             ctx.say("guard certificates: %d functions certified on the IR CFG (%d blocks, %d edges, %d checks, %d recursive-call blocks), "
                     "withdrawn: %s" % (len(cs.certs), sum(c["n"] for c in cs.certs), sum(len(c["cfg"]) for c in cs.certs),
                                        sum(len(c["checks"]) for c in cs.certs), sum(len(c["targets"]) for c in cs.certs), g.denied))
@@ -605,6 +624,10 @@ def run(ctx, only=None):
             "certified": [{"fn": c["fn"], "kind": c["kind"], "counter": c["counter"], "charge": c["charge"], "compare": "%s %d" % (c["pred"], c["k"]),
                            "blocks": c["n"], "edges": len(c["cfg"]), "checks": len(c["checks"]), "recursive_call_blocks": len(c["targets"]),
                            "inits": c["inits"], "stops": c["stopcallees"]} for c in cs.certs],
+            "ir_counter_balance": [{"fn": b["fn"], "counter": b["counter"], "blocks": b["n"], "recursive_calls": len(b["calls"]),
+                                    "charge_keeping_exits": sum(1 for (x, y) in b["cfg"] if y in b["rets"] and (b["live"] >> x) & 1 and not (b["stops"] >> x) & 1
+                                                                and b["level"][y] < b["level"][x] + b["delta"][x]),
+                                    "restores_saved_copy_in_blocks": b["restores"]} for b in getattr(cs, "balance", [])],
             "idiom_matched_but_not_certified": g.denied, "never_returning_without_attribute": [c["fn"] for c in cs.noreturn_used],
             "exemptions": [{"name": e["name"], "callers": e.get("callers"), "writers": e.get("writers"), "certs": [c["fn"] for c in e["certs"]], "fails": e["fails"]} for e in cs.exempt]},
         "counter_balance": None if not g else {"path_classes": len(g.balance), "unbalanced": g.unbalanced,
